@@ -325,6 +325,9 @@ func c16Join(h *H) {
 			case "inner-fails":
 				if calls != 1 || !sameErr(res[n], inj) {
 					h.bad16("wrong-error", fmt.Sprintf("f called %d times; f's error not returned", calls))
+				} else if i, z := allZero(res[:n]); !z {
+					// f is the failing stage and hands back non-zero values next to its error
+					h.bad16("inner-failure-results-not-zero", fmt.Sprintf("f failed: result %d is %s", i, Show(res[i])))
 				}
 			default:
 				if calls != 1 || !res[n].IsNil() || !eqStrs(canons(res[:n]), canons(outs[:nf-1])) {
@@ -342,68 +345,75 @@ func c16Traverse(h *H) {
 	FT, LT := w.Type().In(0), w.Type().In(1)
 	sc := h.Sc
 	maxLen := envInt("VERIF_TRAVLEN", 4)
-	for n := -1; n <= maxLen; n++ {
-		for fail := -1; fail < n || fail < 0; fail++ {
-			for ei, inj := range injected {
-				if fail < 0 && ei > 0 {
-					continue
-				}
-				var in reflect.Value
-				ln := n
-				if n < 0 {
-					in, ln = reflect.Zero(LT), 0
-				} else {
-					in = reflect.MakeSlice(LT, n, n)
-					for i := 0; i < n; i++ {
-						in.Index(i).Set(argFor(LT.Elem(), i, 1, sc))
-					}
-				}
-				var log []string
-				f := reflect.MakeFunc(FT, func(a []reflect.Value) []reflect.Value {
-					i := len(log)
-					log = append(log, Canon(a[0]))
-					if i == fail {
-						return []reflect.Value{argFor(FT.Out(0), 9, 1, sc), errVal(inj)}
-					}
-					return []reflect.Value{argFor(FT.Out(0), i, 0, sc), errVal(nil)}
-				})
-				h.St.States++
-				h.St.Evals++
-				res, pan := Call(w, f, in)
-				if pan != "" {
-					h.bad16("panics", pan, in)
-					continue
-				}
-				wantCalls := ln
-				if fail >= 0 {
-					wantCalls = fail + 1
-				}
-				okLog := len(log) == wantCalls
-				for i := 0; okLog && i < len(log); i++ {
-					okLog = log[i] == Canon(in.Index(i))
-				}
-				switch {
-				case !okLog:
-					h.bad16("stage-order", fmt.Sprintf("list of %d, failure at %d: f called %d times / out of order", ln, fail, len(log)), in)
-				case fail >= 0 && !sameErr(res[1], inj):
-					h.bad16("wrong-error", fmt.Sprintf("list of %d, failure at %d: f's error is not returned", ln, fail), in)
-				case fail >= 0 && !res[0].IsNil():
-					h.bad16("non-zero-result-on-failure", fmt.Sprintf("list of %d, failure at %d: result %s is not a nil slice", ln, fail, Show(res[0])), in)
-				case fail < 0 && !res[1].IsNil():
-					h.bad16("wrong-error", "no failure but error not nil", in)
-				case fail < 0:
-					okv := res[0].Len() == ln
-					for i := 0; okv && i < ln; i++ {
-						okv = Canon(res[0].Index(i)) == Canon(argFor(FT.Out(0), i, 0, sc))
-					}
-					if !okv {
-						h.bad16("wrong-result", "output is not f applied element-wise", in)
-					}
-				}
-				h.St.Nontriv++
+	for _, spare := range []int{0, 3} {
+		for n := -1; n <= maxLen; n++ {
+			if n < 0 && spare > 0 {
+				continue
 			}
-			if fail < 0 && n <= 0 {
-				break
+			for fail := -1; fail < n || fail < 0; fail++ {
+				for ei, inj := range injected {
+					if fail < 0 && ei > 0 {
+						continue
+					}
+					var in reflect.Value
+					ln := n
+					if n < 0 {
+						in, ln = reflect.Zero(LT), 0
+					} else {
+						// spare > 0: a window of a longer backing array whose further elements are not part of the list
+						in = reflect.MakeSlice(LT, n+spare, n+spare)
+						for i := 0; i < n+spare; i++ {
+							in.Index(i).Set(argFor(LT.Elem(), i, 1, sc))
+						}
+						in = in.Slice(0, n)
+					}
+					var log []string
+					f := reflect.MakeFunc(FT, func(a []reflect.Value) []reflect.Value {
+						i := len(log)
+						log = append(log, Canon(a[0]))
+						if i == fail {
+							return []reflect.Value{argFor(FT.Out(0), 9, 1, sc), errVal(inj)}
+						}
+						return []reflect.Value{argFor(FT.Out(0), i, 0, sc), errVal(nil)}
+					})
+					h.St.States++
+					h.St.Evals++
+					res, pan := Call(w, f, in)
+					if pan != "" {
+						h.bad16("panics", pan, in)
+						continue
+					}
+					wantCalls := ln
+					if fail >= 0 {
+						wantCalls = fail + 1
+					}
+					okLog := len(log) == wantCalls
+					for i := 0; okLog && i < len(log); i++ {
+						okLog = log[i] == Canon(in.Index(i))
+					}
+					switch {
+					case !okLog:
+						h.bad16("stage-order", fmt.Sprintf("list of %d, failure at %d: f called %d times / out of order", ln, fail, len(log)), in)
+					case fail >= 0 && !sameErr(res[1], inj):
+						h.bad16("wrong-error", fmt.Sprintf("list of %d, failure at %d: f's error is not returned", ln, fail), in)
+					case fail >= 0 && !res[0].IsNil():
+						h.bad16("non-zero-result-on-failure", fmt.Sprintf("list of %d, failure at %d: result %s is not a nil slice", ln, fail, Show(res[0])), in)
+					case fail < 0 && !res[1].IsNil():
+						h.bad16("wrong-error", "no failure but error not nil", in)
+					case fail < 0:
+						okv := res[0].Len() == ln
+						for i := 0; okv && i < ln; i++ {
+							okv = Canon(res[0].Index(i)) == Canon(argFor(FT.Out(0), i, 0, sc))
+						}
+						if !okv {
+							h.bad16("wrong-result", "output is not f applied element-wise", in)
+						}
+					}
+					h.St.Nontriv++
+				}
+				if fail < 0 && n <= 0 {
+					break
+				}
 			}
 		}
 	}
